@@ -14,7 +14,7 @@ EXPLANATION = ('Field round trip, for every documented pattern run (and longer r
                'that was printed (year with sign, month also from its names, day, day of year, hour from H/k/h/K with the 12 -> 0 and 24 -> 0 rules, '
                'period from AM/PM/noon/midnight texts, minute, second, the five sub-second units, the zone from its printed fields), or nothing for '
                'the symbols the parser skips (era, quarter, week, weekday). Assembly: Date/Time/DateTime::parse combine the parsed units into the '
-               'value by the stated formulas with the documented defaults (decided by C12-A rules below). Side conditions of the property are '
+               'value by the stated formulas with the documented defaults (decided by C12-A rules below); a 24-hour field parsed beside a period marker keeps its value (C12-A2). Side conditions of the property are '
                'applied: a year printed with more digits than a run of 5 or more letters is skipped, yy and narrow names are consumed only.')
 META = {
     'technique': 'static analysis: abstract interpretation of parse_part on the exact symbolic text produced by format_part per output path (segment strings with '
@@ -228,7 +228,7 @@ I32 = {'k': 'int', 's': True, 'bits': 32, 'name': 'i32'}
 U64 = {'k': 'int', 's': False, 'bits': 64, 'name': 'u64'}
 
 
-def single_field(ctx, facts, entry, partfn, unit, units):
+def single_field(ctx, facts, entry, partfn, unit, units, pair=None):
     """one run of `entry` on a pattern of one run whose part parser yields Some(ParsedPart {value: V, unit}) -> problems"""
     from ..models import ok, err, some, none
     from ..entries import DATETIME, DATE, TIME, OFFSET
@@ -241,6 +241,9 @@ def single_field(ctx, facts, entry, partfn, unit, units):
         s2 = st.clone()
         from ..models import new_string_obj
         part = new_string_obj(I_, s2, I_.lit_str(s2, 'x'))      # one run that is not a quoted literal
+        if pair is not None:
+            part2 = new_string_obj(I_, s2, I_.lit_str(s2, 'y'))
+            return [(s2, ('a', (part, part2)))]
         return [(s2, ('a', (part,)))]
 
     def c_part(I_, st, args, dty, site):
@@ -252,6 +255,16 @@ def single_field(ctx, facts, entry, partfn, unit, units):
         v = ('i', V['v'], 'i64')
         ui = units.index(unit)
         pp = ('s', PARSED, (v, ('e', UNIT, {ui: ()})), None)
+        if pair is not None:
+            # pair mode: every part is either the unit (value V) or the second unit of the pair (value W); the trace says which were seen
+            s1.trace = s1.trace[:-1] + ('parsed:' + unit,)
+            s3 = st.clone()
+            if 'w' not in V:
+                V['w'] = D.sym_vid(0, 1, 'second parsed value')
+            s3.iv[V['w']] = (0, 1)
+            s3.trace = s3.trace + ('parsed:' + pair,)
+            pw = ('s', PARSED, (('i', V['w'], 'i64'), ('e', UNIT, {units.index(pair): ()})), None)
+            return [(s1, ok(some(pp))), (s3, ok(some(pw))), (s2, err(I_.top(s2, dty['args'][1], 'fmt')))]
         return [(s1, ok(some(pp))), (s2, err(I_.top(s2, dty['args'][1], 'fmt')))]
 
     def rec_call(key, ret):
@@ -360,6 +373,29 @@ def single_field(ctx, facts, entry, partfn, unit, units):
                     if val[0] == 's' and not any(val[2][2] == r[2][2][2] for r in rec['ymd'] if r[2][0] == 's') and not rec['doy']:
                         pr.append('without a zone in the pattern the offset is not the one of the value built from the date (UTC)')
         return pr
+    if pair is not None:
+        # Ok paths on which both units of the pair were parsed: the time of day is that of the first unit alone
+        want = D.aff_scale(D.aff_of(v), COEF[unit]) if v is not None else None
+        both = good = 0
+        for args, st0, outs in N.results.get(entry, []):
+            for st, rv in outs:
+                if rv[0] != 'e' or 0 not in rv[2] or 1 in rv[2] or v is None:
+                    continue
+                if 'parsed:' + unit not in st.trace or 'parsed:' + pair not in st.trace:
+                    continue
+                both += 1
+                val = rv[2][0][0]
+                hit = [r for r in rec['tfn'] if r[1][0][0] == 'i' and D.aff_equiv(D.aff_of(r[1][0][1]), want, st=r[0])]
+                tvs = [h[2] for h in hit]
+                ty = entry.split('::')[1]
+                if hit and ((ty == 'Time' and val in tvs) or (ty == 'DateTime' and val[0] == 's' and val[2][1] in [tv[2][0] for tv in tvs])):
+                    good += 1
+        if both == 0:
+            return [f'no Ok path on which both a {unit} and a {pair} field were parsed']
+        if good != both:
+            return [f'with a {unit} field and a {pair} field in the pattern the time of day is not {unit} value * {COEF[unit]} '
+                    f'(the text written for such a pattern does not read back as the same time) on {both - good} of {both} paths']
+        return []
     with_v = 0
     import os
     if os.environ.get('C12DBG'):
@@ -397,3 +433,9 @@ def assembly(ctx, facts):
             ctx.rule('C12-A a single parsed unit lands in its field, the others take the documented defaults', 1, 0 if pr else 1, sample={'entry': entry, 'unit': unit})
             for i, m in enumerate(pr[:2]):
                 ctx.finding(f'C12:ASSEMBLY|{entry}|{unit}|{i}', 'C12-A assembly', facts.bodies[entry]['span'], f'{entry} with one {unit} field: {m}')
+        if 'Hour' in units and 'Period' in units and (only is None or 'Hour' in only):
+            # A2: a 24-hour field next to a period marker (`HH:mm a`): the 24-hour field decides, whatever the marker says
+            pr = single_field(ctx, facts, entry, partfn, 'Hour', units, pair='Period')
+            ctx.rule('C12-A2 a 24-hour field beside a period marker keeps its value', 1, 0 if pr else 1, sample={'entry': entry})
+            for m in pr[:1]:
+                ctx.finding(f'C12:ASSEMBLY2|{entry}|Hour+Period', 'C12-A2 assembly of two fields', facts.bodies[entry]['span'], f'{entry}: {m}')
